@@ -453,6 +453,7 @@ static void gen_history(Rng &r, Plan &plan) {
         g.faults = false;
         g.violations = true;
         g.force_violation = true;
+        g.no_edges = true;
         for (int i = 0; i < n; i++) {
             TaskPlan &tp = plan.tasks[i];
             uint32_t &top = tops[i];
@@ -484,6 +485,7 @@ static void gen_history(Rng &r, Plan &plan) {
         GenCfg g;
         g.faults = false;
         g.violations = false;
+        g.no_edges = true;
         for (int i = 0; i < n; i++) {
             TaskPlan &tp = plan.tasks[i];
             uint32_t &top = tops[i];
